@@ -339,7 +339,9 @@ unroll_ical(echs_evstrm_t smux, const struct unroll_param_s *p)
 	/* just get it out now */
 	echs_prnt_ical_init();
 	while (!echs_event_0_p(e = echs_evstrm_pop(smux))) {
-		echs_instant_t ebeg = echs_instant_detach_scale(e.from);
+		/* --from and --till are Gregorian dates */
+		echs_instant_t ebeg =
+			echs_instant_rescale(e.from, SCALE_GREGORIAN);
 
 		if (echs_instant_lt_p(ebeg, p->from)) {
 			continue;
@@ -492,14 +494,18 @@ unroll_frmt(echs_evstrm_t smux, const struct unroll_param_s *p, const char *fmt)
 	/* just get it out now */
 	fdbang(STDOUT_FILENO);
 	while (!echs_event_0_p(e = echs_evstrm_pop(smux))) {
+		/* --from, --till and --filter are about Gregorian dates */
+		const echs_instant_t g =
+			echs_instant_rescale(e.from, SCALE_GREGORIAN);
+
 		/* prepare for printing */
 		e.from = echs_instant_detach_scale(e.from);
-		if (echs_instant_lt_p(p->till, e.from)) {
+		if (echs_instant_lt_p(p->till, g)) {
 			break;
-		} else if (echs_instant_lt_p(e.from, p->from)) {
+		} else if (echs_instant_lt_p(g, p->from)) {
 			continue;
 		} else if (p->filt.freq &&
-			   !echs_instant_matches_p(&p->filt, e.from)) {
+			   !echs_instant_matches_p(&p->filt, g)) {
 			continue;
 		}
 		/* otherwise print */
